@@ -239,6 +239,66 @@ def rule_static_dynamic(ctx, models):
         raise AnalysisError("static->dynamic hand-over models: %d found, 16 confirmed by reading" % n)
 
 
+def rule_mode_continuity(ctx, models):
+    """Equations that switch between a power-flow form and a time-domain form on `dae_t` (Indicator(dae_t < 0) / (dae_t >= 0)):
+    at the hand-over point (every external variable at its power-flow value: v -> v0, a -> a0; services by their declared
+    v_str) both forms give the same injection, for every value of the limiter flags -- under the documented normalisation of
+    the share options (p2p + p2i + p2z = 1, q2q + q2i + q2z = 1)."""
+    from engine import dsl
+    n = 0
+    for name, m in models.items():
+        if not (m.flags.pflow and m.flags.tds):
+            continue
+        eqs = [(vn, v) for vn, v in m.cache.all_vars.items() if v.e_str and "dae_t" in v.e_str and "Indicator" in v.e_str]
+        if not eqs:
+            continue
+        st = dsl.SymTab(m)
+        svc = {}
+        for sn, s_ in m.services.items():
+            if s_.v_str is not None and type(s_).__name__ in ("ConstService", "VarService"):
+                try:
+                    svc[st.get(sn)] = dsl.parse_dsl(s_.v_str, st)
+                except dsl.DSLError:
+                    pass
+        # external variables at their power-flow values: ExtService of the same source (v0 <- Bus.v, a0 <- Bus.a)
+        at0 = {}
+        for vn, v in m.cache.vars_ext.items():
+            for sn, s_ in m.services_ext.items():
+                if getattr(s_, "src", None) == v.src and getattr(s_, "model", None) == v.model and \
+                        getattr(s_.indexer, "name", 0) == getattr(v.indexer, "name", 1):
+                    at0[st.get(vn)] = st.get(sn)
+        cfg = {k: st.get(k) for k in m.config.as_dict() if k in st}
+        norm = {}
+        for a, b, c in (("p2p", "p2i", "p2z"), ("q2q", "q2i", "q2z")):
+            if all(k in cfg for k in (a, b, c)):
+                norm[cfg[c]] = 1 - cfg[a] - cfg[b]
+        t = st.get("dae_t")
+        for vn, v in eqs:
+            n += 1
+            try:
+                e = dsl.parse_dsl(v.e_str, st)
+            except dsl.DSLError as ex:
+                ctx.undecided("C05.continuity", "%s.%s" % (name, vn), "front-end: %s" % ex, elab.locate(m, vn))
+                continue
+
+            def at(expr, tval):
+                x = expr.subs(t, tval)
+                x = x.replace(lambda z: isinstance(z, dsl.Indicator), lambda z: sp.Integer(1) if z.args[0] == sp.true else
+                              (sp.Integer(0) if z.args[0] == sp.false else z))
+                for _ in range(4):
+                    x = x.subs(svc)
+                x = x.subs(at0)
+                for _ in range(4):
+                    x = x.subs(svc).subs(at0)
+                return x.subs(norm)
+            before, after = at(e, -1), at(e, 1)
+            d = sp.simplify(sp.expand(before - after))
+            ctx.check(d == 0, "C05.continuity", "%s.%s" % (name, vn), "power-flow form == time-domain form at the hand-over point",
+                      "the injection jumps at the hand-over by %s (power-flow form %s, time-domain form %s)" % (
+                          d, sp.simplify(before), sp.simplify(after)), elab.locate(m, vn))
+    ctx.count("mode_switched_equations", n)
+
+
 def rule_equilibrium(ctx, models, gens):
     """thorough: symbolic equilibrium obligations against the committed baseline."""
     from engine import equil
@@ -290,6 +350,8 @@ def run(ctx):
     rule_handover(ctx, repo)
     rule_init_order(ctx, models, gens)
     rule_static_dynamic(ctx, models)
+    ctx.rule("C05.continuity", "symbolic: equations switched on dae_t give the same injection before and after the hand-over", 2)
+    rule_mode_continuity(ctx, models)
     if ctx.tier == "thorough":
         ctx.rule("C05.equilibrium", "symbolic: explicit initial values substituted into every state / internal algebraic equation "
                  "reduce it to 0 (obligations proven on the baseline tree must stay proven)", 600)
